@@ -128,7 +128,7 @@ class ComponentLevel2( ComponentLevel1 ):
     # I refactor the process of materializing objects in this function
     # Pass in the func as well for error message
 
-    def extract_obj_from_names( func, names, update_ff=False, is_write=False ):
+    def extract_obj_from_names( func, names, update_ff=False, is_write=False, write_info=None ):
 
       def expand_array_index( obj, name_depth, node_depth, idx_depth, idx ):
         """ Find s.x[0][*][2], if index is exhausted, jump back to lookup_variable """
@@ -229,6 +229,11 @@ class ComponentLevel2( ComponentLevel1 ):
           partial = set() # signals accessed as s.x[i] with a variable i
           lookup_variable( s, 1, 1 )
 
+          # The writes of a function are checked against the blocks that
+          # call it
+          if write_info is not None and objs:
+            write_info.append( (objs, partial, op, nodelist[0].lineno) )
+
           if not is_write or not objs:
             all_objs |= objs
             continue
@@ -310,9 +315,12 @@ class ComponentLevel2( ComponentLevel1 ):
     s._dsl.func_reads  = {}
     s._dsl.func_writes = {}
     s._dsl.func_calls  = {}
+    func_write_info = {}
     for name, func in s._dsl.name_func.items():
+      func_write_info[ func ] = []
       s._dsl.func_reads [ func ] = extract_obj_from_names( func, name_rd[ name ] )
-      s._dsl.func_writes[ func ] = extract_obj_from_names( func, name_wr[ name ] )
+      s._dsl.func_writes[ func ] = extract_obj_from_names( func, name_wr[ name ],
+                                    write_info = func_write_info[ func ] )
       s._dsl.func_calls [ func ] = extract_obj_from_names( func, name_fc[ name ] )
 
     s._dsl.upblk_reads  = {}
@@ -323,6 +331,33 @@ class ComponentLevel2( ComponentLevel1 ):
       s._dsl.upblk_writes[ blk ] = extract_obj_from_names( blk, name_wr[ name ],
                                     update_ff = blk in s._dsl.update_ff, is_write=True )
       s._dsl.upblk_calls [ blk ] = extract_obj_from_names( blk, name_fc[ name ] )
+
+    # The writes inside the functions a block calls (directly or through
+    # other functions) are writes of that block: <<= belongs to update_ff
+    # (and makes the signal a register), @= to update
+    for blk, calls in s._dsl.upblk_calls.items():
+      is_ff   = blk in s._dsl.update_ff
+      visited = set()
+      Q = [ x for x in calls if x in func_write_info ]
+      while Q:
+        func = Q.pop()
+        if func in visited:
+          continue
+        visited.add( func )
+        for objs, partial, op, lineno in func_write_info[ func ]:
+          if isinstance( op, ast.LShift ):
+            if not is_ff:
+              raise UpdateBlockWriteError( s, func, '<<=', lineno,
+                "Fix the '<<=' assignment with '@='")
+            for x in objs:
+              if isinstance( x, Signal ):
+                if not x.is_top_level_signal() or x in partial:
+                  raise UpdateFFNonTopLevelSignalError( s, func, lineno )
+                x._dsl.needs_double_buffer = True
+          elif isinstance( op, ast.MatMult ) and is_ff:
+            raise UpdateFFBlockWriteError( s, func, '@=', lineno,
+              "Fix the '@=' assignment with '<<='")
+        Q.extend( x for x in s._dsl.func_calls[ func ] if x in func_write_info )
 
   # Override
   def _collect_vars( s, m ):
